@@ -336,11 +336,15 @@ def prepare_label(s: str, convert_unicode: bool, to_snake_case: bool) -> str:
         # Python normalizes identifiers (NFKC) but not the strings that name them (aliases, converter paths)
         s = unicodedata.normalize("NFKC", s)
     s = re.sub(r"\W", "", s)
-    if s and '0' <= s[0] <= '9':
-        s = ones[int(s[0])] + "_" + s[1:]
-    # pydantic and attrs treat a name with a leading underscore as private: move the underscores to the end
-    head = len(s) - len(s.lstrip("_"))
-    s = s[head:] + s[:head]
+    # A label has to start with a letter: spell out a leading digit and move a leading underscore to the end
+    # (pydantic and attrs treat a name with a leading underscore as private) until it does
+    while s.strip("_") and not s[0].isalpha():
+        if s[0] == "_":
+            s = s[1:] + "_"
+        elif s[0].isdecimal():
+            s = ones[unicodedata.decimal(s[0])] + "_" + s[1:]
+        else:
+            s = s[1:]
     if not s.strip("_"):
         # The key has no letter or digit at all ("", "-", "_")
         s = "field" + s
